@@ -37,8 +37,8 @@ ASSUMPTIONS = ['all lookups see the table as it was before the request (the docs
                '1..40, never 0; when such an id exists but the row does not match, the add is impossible: rejection must leave '
                'no trace, acceptance is not judged',
                'values are right-typed for their column except in the labelled conversion class']
-BUDGET = {'quick': dict(examples=2200, shards=12, max_seconds=50),
-          'thorough': dict(examples=48000, shards=16, max_seconds=540)}
+BUDGET = {'quick': dict(examples=3600, shards=12, max_seconds=40),
+          'thorough': dict(examples=64000, shards=16, max_seconds=450)}
 SHRINK_BUDGET = {'quick': 120, 'thorough': 400}
 
 TABLE = 'Tab1'
@@ -57,8 +57,9 @@ def strategy(tier):
   sel = st.integers(0, 7)
   row = st.fixed_dictionaries({c: sel for c, _ in COLS})
   rows = weighted((4, st.lists(row, min_size=3, max_size=7)), (1, st.lists(row, min_size=0, max_size=2)))
-  req_cols = weighted((3, st.lists(st.sampled_from(['A', 'B', 'R']), min_size=1, max_size=3, unique=True)),
-                      (1, st.lists(st.sampled_from(['A', 'B', 'R', 'id', 'CL']), min_size=0, max_size=3, unique=True)))
+  req_cols = weighted((7, st.lists(st.sampled_from(['A', 'B', 'R']), min_size=1, max_size=3, unique=True)),
+                      (2, st.lists(st.sampled_from(['A', 'B', 'R', 'id', 'CL']), min_size=1, max_size=3, unique=True)),
+                      (1, st.just([])))
   val_cols = st.lists(st.sampled_from(['A', 'B', 'R', 'CL', 'C', 'C', 'D']), min_size=0, max_size=3, unique=True)
   # '~' = key absent (default behaviour)
   options = st.fixed_dictionaries({
